@@ -186,37 +186,6 @@ def atom_head_differs(t, env):
     return False
 
 
-def constant_detection_wrong(t, env):
-    """replicates TableWaveform._validate_input's constancy decision (which looks at the previous entry's strategy)
-    and compares it with the truth"""
-    D = table_dur(t, env)
-    for es in chan_entries(t, env).values():
-        es = list(es)
-        if es[0][0] > 0:
-            es.insert(0, (F(0), es[0][1], 'hold' if t['k'] == 'table' else es[0][2]))
-        if es[-1][0] < D:
-            es.append((D, es[-1][1], 'hold'))
-        if len(es) < 2 or D == 0:
-            continue
-
-        def cv(ip, a, b):
-            return a[1] if ip == 'hold' else b[1] if ip == 'jump' else (a[1] if a[1] == b[1] else None)
-        claimed = cv(es[1][2], es[0], es[1])
-        cur = es[1]
-        for nxt in es[2:]:
-            if claimed is not None and cv(cur[2], cur, nxt) != claimed:
-                claimed = None
-            cur = nxt
-        truth = set()
-        for a, b in zip(es, es[1:]):
-            if b[0] > a[0]:
-                truth.add(cv(b[2], a, b))
-        really = (len(truth) == 1 and None not in truth)
-        if (claimed is not None) != really or (really and claimed not in truth):
-            return True
-    return False
-
-
 def any_atom(t, env, pred):
     """does pred hold for some instantiated atom (loops unrolled)?"""
     k = t['k']
@@ -418,53 +387,139 @@ def tdarith_cases(rng, n):
     return cases
 
 
+def raw_duration(t, env):
+    """the duration the SYMBOLIC expression of the unchanged code evaluates to (finding negative-duration-empty: a negative
+    ConstantPT duration / repetition count enters the sum as it is, the program skips that part); `pdur` is the played one"""
+    k = t['k']
+    if k in ('table', 'point'):
+        return table_dur(t, env)
+    if k in ('const', 'func'):
+        return ev(t['d'], env)
+    if k == 'seq':
+        return sum(raw_duration(s, env) for s in t['ps'])
+    if k == 'rep':
+        return ev(t['n'], env) * raw_duration(t['b'], env)
+    if k == 'for':
+        return sum(raw_duration(t['b'], dict(env, **{t['i']: F(i)})) for i in rng_of(t, env))
+    if k == 'map':
+        return raw_duration(t['b'], map_env(t, env))
+    if k == 'multi':
+        return ev(t['dur'], env) if 'dur' in t else raw_duration(t['ps'][0], env)
+    if k == 'aatom':
+        return raw_duration(t['l'], env)
+    return raw_duration(t['b'], env)
+
+
+def tainted_channels(t, env, leaf, under=False):
+    """OUTPUT channels of `t` that carry the voltage of a part selected by `leaf(node, env, under)` (a set of the node's
+    own channel names), followed through channel renamings / drops of the MappingPTs above it; loops unrolled at `env`;
+    `under` = an ArithmeticPT / ParallelChannelPT is above the node."""
+    k = t['k']
+    s = set(leaf(t, env, under))
+    if k in ('seq', 'multi'):
+        for sub in t['ps']:
+            s |= tainted_channels(sub, env, leaf, under)
+    elif k == 'for':
+        for i in rng_of(t, env):
+            s |= tainted_channels(t['b'], dict(env, **{t['i']: F(i)}), leaf, under)
+    elif k == 'map':
+        cm = {a: b for a, b in t['cm']}
+        for c in tainted_channels(t['b'], map_env(t, env), leaf, under):
+            c2 = cm.get(c, c)
+            if c2 is not None:
+                s.add(c2)
+    elif k == 'aatom':
+        s |= tainted_channels(t['l'], env, leaf, under) | tainted_channels(t['r'], env, leaf, under)
+    elif k in ('par', 'arithl', 'arithr'):
+        s |= tainted_channels(t['b'], env, leaf, True)
+    elif 'b' in t:
+        s |= tainted_channels(t['b'], env, leaf, under)
+    return s
+
+
+def failing_clauses(case, obs):
+    """the clauses of the property that fail on this observation as far as Python can see them: 'dur', ('int', c),
+    ('ini', c), ('pad', c) [padded region does not play final_values / pad_to not instantiable], ('fin', c) [only where the
+    very last sample is the specified end voltage: the time dependent scalar stream].  The comparison of final_values with
+    the DENOTED end voltage is made in Coq only (check_spec)."""
+    out = set()
+    chans = obs['chans']
+    if obs['real'] == 'none':
+        if obs['sdur'] != '0':
+            out.add('dur')
+        for c in chans:
+            if obs['ch'][c]['sint'] != '0':
+                out.add(('int', c))
+        return out
+    if obs['sdur'] != obs['real']:
+        out.add('dur')
+    for c in chans:
+        o = obs['ch'][c]
+        if not case.get('noint') and o['sint'] != o['rint']:
+            out.add(('int', c))
+        if o['sini'] != o['r0']:
+            out.add(('ini', c))
+        if obs.get('padded') in ('err', 'none', None) or not o.get('pad') or any(x != o['sfin'] for x in o['pad']):
+            out.add(('pad', c))
+        if case.get('kind') == 'tdarith' and o['sfin'] != o.get('rend'):
+            out.add(('fin', c))
+    return out
+
+
 def classify(case, obs):
     """id of the known finding that explains why the property fails on this case (None = unexplained).
-    EXACT for the two end-point findings: a wrong initial / final value is explained only when the proven guard of the
-    finding (Wf.guard_C07_initial_head / guard_C07_final_tail, mirrored by g_ini / g_tail and cross-checked against the
-    Coq definitions in check_corr) is false at these parameters; under the guards the theorems C07_initial_guarded /
-    C07_final_guarded say the model is right, so a failure is a violation."""
+    ROUND 5: decided CLAUSE BY CLAUSE.  Every failing clause Python can see (duration, integral / initial value per
+    channel, padded region) must be explained by a finding whose input class the case is in AND that can produce exactly
+    this kind of deviation on this channel; one unexplained clause => None (the case is reported as a violation):
+      * negative-duration-empty: the duration (only if the reported value is the raw sum `raw_duration`, i.e. what the
+        unchanged code reports) and integrals; never initial / final values or the padded region;
+      * arith-over-parallel-order: integral / initial value of a channel OVERWRITTEN by a ParallelChannelPT that sits below an
+        ArithmeticPT / another ParallelChannelPT (followed through channel renamings); nothing else;
+      * initial-head-empty-or-jump: initial values, only when the proven guard Wf.guard_C07_initial_head (mirrored by g_ini,
+        cross-checked against the Coq definition in check_corr) is false at these parameters;
+      * final-tail-empty: final values (sample at the very end in the time dependent scalar stream; otherwise the comparison
+        with the denoted end voltage made in Coq), only when Wf.guard_C07_final_tail (g_tail) is false.
+    When no Python-visible clause fails, the failure is check_spec's alone (final value vs denoted end voltage, padded
+    duration, or a template Spec.denote gives no meaning): explained only by final-tail-empty outside its guard or by
+    negative-duration-empty on a template containing such a part."""
     if 'crash' in obs or 'hang' in obs or obs.get('real') == 'err':
+        return None
+    if obs.get('hist_mismatch') or obs.get('padx_mismatch'):
         return None
     env = {n: F(v) for n, v in case['params'].items()}
     pt = case['pt']
-    if case.get('kind') == 'tdarith':
-        # only the structural end-point findings apply (empty first / last part): the scalar does not change durations
-        try:
-            bad_int = not case.get('noint') and any(obs['ch'][c]['sint'] != (obs['ch'][c].get('rint') if obs['real'] != 'none' else '0') for c in obs['chans'])
-            if bad_int:
-                return None
-            bad_ini = obs['real'] != 'none' and any(obs['ch'][c]['sini'] != obs['ch'][c]['r0'] for c in obs['chans'])
-            bad_fin = obs['real'] != 'none' and any(obs['ch'][c]['sfin'] != obs['ch'][c].get('rend') for c in obs['chans'])
-            ok_i, ok_t = g_ini(pt, env), g_tail(pt, env)
-            if (bad_ini and ok_i) or (bad_fin and ok_t):
-                return None
-            return 'initial-head-empty-or-jump' if bad_ini else 'final-tail-empty' if bad_fin else None
-        except (KeyError, ZeroDivisionError, ValueError, IndexError):
-            return None
     try:
-        if any_node(pt, env, negative_duration):
-            return 'negative-duration-empty'
-        if any_node(pt, env, arith_over_par):
-            return 'arith-over-parallel-order'
-        if any_atom(pt, env, constant_detection_wrong):
-            return 'table-constant-detection'
-        bad_int = bad_ini = False
-        for c in obs['chans']:
-            o = obs['ch'][c]
-            if obs['real'] == 'none':
-                bad_int |= o['sint'] != '0'
-                continue
-            bad_int |= o['sint'] != o['rint']
-            bad_ini |= o['sini'] != o['r0']
-        if bad_int:
-            return None
+        bad = failing_clauses(case, obs)
+        neg = any_node(pt, env, negative_duration)
         ok_ini, ok_tail = g_ini(pt, env), g_tail(pt, env)
-        if bad_ini and ok_ini:
-            return None
-        if bad_ini:
-            return 'initial-head-empty-or-jump'
-        # what is left is the end value (needs the denotation; decided in Coq): explained only outside the guard
+        ov = tainted_channels(pt, env, lambda n, e, under: set(n['ov']) if n['k'] == 'par' and under else ())
+        used = []
+        for cl in sorted(bad, key=str):
+            if cl == 'dur':
+                if not (neg and obs['sdur'] == str(raw_duration(pt, env))):
+                    return None
+                used.append('negative-duration-empty')
+                continue
+            kind, c = cl
+            if kind == 'int':
+                fid = 'negative-duration-empty' if neg else 'arith-over-parallel-order' if c in ov else None
+            elif kind == 'ini':
+                fid = 'arith-over-parallel-order' if c in ov else None if ok_ini else 'initial-head-empty-or-jump'
+            elif kind == 'fin':
+                fid = None if ok_tail else 'final-tail-empty'
+            else:                   # the padded region never plays anything but final_values on the unchanged code
+                fid = None
+            if fid is None:
+                return None
+            used.append(fid)
+        if used:
+            for fid in ('negative-duration-empty', 'arith-over-parallel-order', 'initial-head-empty-or-jump',
+                        'final-tail-empty'):
+                if fid in used:
+                    return fid
+        # nothing visible in Python: check_spec alone rejects
+        if neg:
+            return 'negative-duration-empty'
         if not ok_tail:
             return 'final-tail-empty'
     except (KeyError, ZeroDivisionError, ValueError, IndexError):
@@ -1484,9 +1539,87 @@ def coverage_families():
     return cs
 
 
+def known_class_family():
+    """round 5 (audit of the known-finding predicates): inputs INSIDE the input class of each known finding combined with a
+    healthy part - a second channel the finding does not touch, a non-empty first / last part around the affected one - so
+    that a different violation on such an input shows up in a clause / channel the finding cannot explain (`classify`
+    decides clause by clause).  Deterministic, quick + thorough."""
+    cs = []
+
+    def cst(d, **vals):
+        return {'k': 'const', 'd': d, 'vals': {c: v for c, v in vals.items()}}
+
+    def put(t, params, src):
+        cs.append({'kind': 'pulse', 'pt': t, 'params': used_params(t, params), 'pad': '1', 'src': 'known-class:' + src})
+    X = cst(C(1), A=C(1), B=V('a'))
+    Y = cst(C(2), A=C(3), B=C(F(-1, 2)))
+    NEG = cst(V('T'), A=C(5), B=C(2))
+    pr = {'a': '3/4', 'T': '-1', 'n': '-1'}
+    # negative-duration-empty: the negative part in the middle / first / last, as a repetition count, through a mapping,
+    # as one iteration of a loop (durations 1, 0, -1 / -1, 0, 1), inside a repetition, under scalar arithmetic
+    put({'k': 'seq', 'ps': [X, NEG, Y]}, pr, 'neg-middle')
+    put({'k': 'seq', 'ps': [NEG, X, Y]}, pr, 'neg-first')
+    put({'k': 'seq', 'ps': [X, Y, NEG]}, pr, 'neg-last')
+    put({'k': 'seq', 'ps': [X, {'k': 'rep', 'n': V('n'), 'b': Y}, Y]}, pr, 'neg-rep-middle')
+    put({'k': 'map', 'b': {'k': 'seq', 'ps': [X, cst(V('U'), A=C(5), B=C(2)), Y]}, 'pm': {'U': ['neg', V('a')]}, 'cm': []},
+        pr, 'neg-mapped')
+    loop_d = cst(V('i1'), A=add(V('i1'), C(2)), B=V('a'))
+    for (a, o, st), nm in (((1, -2, -1), 'down'), ((-1, 2, 1), 'up')):
+        loop = {'k': 'for', 'i': 'i1', 'start': C(a), 'stop': C(o), 'step': C(st), 'b': loop_d}
+        put({'k': 'seq', 'ps': [X, loop, Y]}, pr, 'neg-loop-' + nm)
+        put(loop, pr, 'neg-loop-bare-' + nm)
+    put({'k': 'rep', 'n': C(2), 'b': {'k': 'seq', 'ps': [X, NEG, Y]}}, pr, 'neg-in-rep')
+    put({'k': 'arithl', 'b': {'k': 'seq', 'ps': [X, NEG, Y]}, 'op': '+', 's': {'map': {'B': V('a')}}}, pr, 'neg-under-arith')
+    # arith-over-parallel-order: channel B overwritten below the arithmetic, channel A (and C) healthy
+    PAR = {'k': 'par', 'b': cst(C(2), A=C(1), C=V('a')), 'ov': {'B': [C(1)]}}
+    for op in ('+', '-', '*', '/'):
+        put({'k': 'arithl', 'b': PAR, 'op': op, 's': {'all': C(2)}}, pr, 'aop-left' + op)
+    for op in ('+', '-', '*'):
+        put({'k': 'arithr', 'b': PAR, 'op': op, 's': {'all': V('a')}}, pr, 'aop-right' + op)
+    put({'k': 'arithl', 'b': PAR, 'op': '-', 's': {'map': {'A': C(2)}}}, pr, 'aop-map-healthy-channel')
+    put({'k': 'arithl', 'b': PAR, 'op': '-', 's': {'map': {'B': C(2), 'C': C(1)}}}, pr, 'aop-map-overwritten-channel')
+    put({'k': 'arithl', 'b': {'k': 'map', 'b': PAR, 'pm': {}, 'cm': [['B', 'D'], ['A', 'B']]}, 'op': '+', 's': {'all': C(2)}},
+        pr, 'aop-renamed')
+    put({'k': 'par', 'b': PAR, 'ov': {'D': [V('a')]}}, pr, 'aop-par-over-par')
+    put({'k': 'arithl', 'b': {'k': 'seq', 'ps': [PAR, cst(C(1), A=C(2), B=C(3), C=C(4))]}, 'op': '*', 's': {'all': C(3)}},
+        pr, 'aop-in-sequence')
+    put({'k': 'for', 'i': 'i1', 'start': C(0), 'stop': C(3), 'step': C(2),
+         'b': {'k': 'arithl', 'b': {'k': 'par', 'b': cst(C(1), A=V('i1')), 'ov': {'B': [add(V('i1'), C(1))]}}, 'op': '+',
+               's': {'all': V('i1')}}}, pr, 'aop-in-loop')
+    # FORMER finding table-constant-detection (repaired in /repo by 01efa2c; the entry was stale until round 5): constant
+    # prefix followed by a ramp / jump on channel A, a plain ramp / steps on channel B - ordinary strict cases now
+    TCD = {'k': 'table', 'ch': {'A': [[C(0), C(1), 'hold'], [C(1), C(1), 'hold'], [C(2), C(3), 'linear']],
+                                'B': [[C(0), C(0), 'hold'], [C(2), V('a'), 'linear']]}}
+    TCD2 = {'k': 'table', 'ch': {'A': [[C(0), C(2), 'hold'], [C(1), C(2), 'linear'], [C(2), C(0), 'jump']],
+                                 'B': [[C(0), C(1), 'hold'], [C(1), C(3), 'hold'], [C(2), C(3), 'hold']]}}
+    for nm, T in (('ramp', TCD), ('jump', TCD2)):
+        put(T, pr, 'tcd-' + nm)
+        put({'k': 'seq', 'ps': [X, T, Y]}, pr, 'tcd-%s-in-sequence' % nm)
+        put({'k': 'arithl', 'b': T, 'op': '-', 's': {'map': {'B': V('a')}}}, pr, 'tcd-%s-under-arith' % nm)
+        put({'k': 'map', 'b': T, 'pm': {}, 'cm': [['A', 'C'], ['B', 'A']]}, pr, 'tcd-%s-renamed' % nm)
+        put({'k': 'rep', 'n': C(2), 'b': T}, pr, 'tcd-%s-repeated' % nm)
+    # initial-head-empty-or-jump / final-tail-empty: the affected end next to a healthy integral / other end / channel
+    JUMP = {'k': 'table', 'ch': {'A': [[C(0), C(1), 'hold'], [C(1), C(3), 'jump'], [C(2), C(2), 'linear']],
+                                 'B': [[C(0), V('a'), 'hold'], [C(2), C(2), 'linear']]}}
+    EMPTY = cst(C(0), A=C(5), B=C(7))
+    put(JUMP, pr, 'ini-jump-two-channels')
+    put({'k': 'seq', 'ps': [JUMP, Y]}, pr, 'ini-jump-first')
+    put({'k': 'seq', 'ps': [EMPTY, X, Y]}, pr, 'ini-empty-first')
+    put({'k': 'seq', 'ps': [X, Y, EMPTY]}, pr, 'tail-empty-last')
+    put({'k': 'seq', 'ps': [EMPTY, X, EMPTY]}, pr, 'both-ends-empty')
+    put({'k': 'rep', 'n': C(2), 'b': {'k': 'seq', 'ps': [X, EMPTY]}}, pr, 'tail-empty-in-rep')
+    put({'k': 'arithl', 'b': {'k': 'seq', 'ps': [EMPTY, X]}, 'op': '*', 's': {'map': {'B': C(2)}}}, pr, 'ini-empty-under-arith')
+    put({'k': 'for', 'i': 'i1', 'start': C(0), 'stop': C(3), 'step': C(1), 'b': cst(V('i1'), A=add(V('i1'), C(1)), B=V('a'))},
+        pr, 'ini-first-iteration-empty')
+    put({'k': 'for', 'i': 'i1', 'start': C(2), 'stop': C(-1), 'step': C(-1), 'b': cst(V('i1'), A=add(V('i1'), C(1)), B=V('a'))},
+        pr, 'tail-last-iteration-empty')
+    return cs
+
+
 def gen_cases(rng, tier, ctx):
     cases = handmade() + blind_class_families(tier) + capture_family()
     cases += zero_count_family(tier) + td_scalar_ends_family(tier) + range_mentions_index_family() + coverage_families()
+    cases += known_class_family()
     if tier == 'quick':
         cases += shared_body_forests(rng, 2)
         pairs = exhaustive_pair_forests(rng)
